@@ -91,4 +91,31 @@ theorem trim_decomp (s : List Char) :
   rw [List.append_assoc, ← h3 (s.dropWhile isSpace)]
   exact h1
 
+/-! ### `Decode`: closures keep their charset -/
+
+theorem lookupsOf_append (a b : List DecodeOp) : Spec.lookupsOf (a ++ b) = Spec.lookupsOf a ++ Spec.lookupsOf b := by
+  induction a with
+  | nil => rfl
+  | cons op ops ih => cases op <;> simp [Spec.lookupsOf, ih]
+
+theorem decodeRun_state (codecs : List Char → List Nat → Option (List Char)) (ops : List DecodeOp) :
+    ∀ st, (decodeRun codecs st ops).1 = st ++ Spec.lookupsOf ops := by
+  induction ops with
+  | nil => intro st; simp [decodeRun, Spec.lookupsOf]
+  | cons op ops ih =>
+    intro st
+    cases op with
+    | lookup key => simp [decodeRun, decodeStep, Spec.lookupsOf, ih]
+    | call j x =>
+      simp only [decodeRun, decodeStep, Spec.lookupsOf]
+      split <;> simp [ih]
+
+theorem getElem?_append_of_some {α} {l m : List α} {j : Nat} {a : α} (h : l[j]? = some a) :
+    (l ++ m)[j]? = some a := by
+  have hlt : j < l.length := by
+    rcases Nat.lt_or_ge j l.length with h1 | h1
+    · exact h1
+    · rw [List.getElem?_eq_none h1] at h; cases h
+  rw [List.getElem?_append_left hlt]; exact h
+
 end MakoModel.C10
